@@ -1,6 +1,7 @@
 import Std.Data.HashMap
 import Std.Data.HashSet
 import Wayfind.Model.Router
+import Wayfind.Model.CheckedParser
 import Wayfind.Spec.FitsExec
 import Wayfind.Spec.Greedy
 import Wayfind.Spec.RefWalk
@@ -266,6 +267,9 @@ def judgeStep (s : JS) (models : List (Nat × Router)) (idx : Nat) (op : Op) (im
       | some j => s.set r2 { j with prev := {}, lastMut := none }
     | .drop r => { s with routers := s.routers.filter (·.1 != r) }
     | .parse t =>
+      -- the checked, position-based transcription must give what the list-based one gives (C07's tie)
+      let s := if agreeC (parseC t) (parseTemplates t) then s.bump "checked.agree"
+        else s.emit s!"D {idx} checked\t{implCore}\tthe checked transcription of the parser disagrees with the list-based model"
       let spec := specParse t
       let s := s.bump (if spec.isSome then "parse.accepted" else "parse.rejected")
       let s := { s with nontrivial := s.nontrivial.insert ((if spec.isSome then (if (spec.getD []).length > 1 then "groups|" else "accepted|") else "rejected|") ++ hex t) }
